@@ -459,6 +459,53 @@ Definition parse_tokens (fuel : nat) (toks : list token) : pres (list block) :=
   parse_all fuel (init_st toks) [].
 End Parser.
 
+(* ---------- where an import argument points (doImport: filepath.Abs / IsAbs / Dir / Join / Glob) ---------- *)
+(* The parser's world oracle [globs] is keyed by (file of the import token, pattern).  For patterns
+   without meta characters the rule by which doImport arrives at the file is part of the model: a
+   relative pattern is joined to the DIRECTORY OF THE FILE THAT CONTAINS THE IMPORT TOKEN (not the
+   working directory, not the directory of the main file, not that of an earlier import of the same
+   pattern), an absolute one is taken as written, and filepath.Glob returns the pattern itself iff a
+   file or directory of exactly that path exists. *)
+Definition is_abs (p : bytes) : bool := has_prefix p [47].
+Fixpoint dir_rev (r : bytes) : bytes :=
+  match r with [] => [] | c :: t => if c =? 47 then t else dir_rev t end.
+(* filepath.Dir of a clean absolute path *)
+Definition path_dir (p : bytes) : bytes :=
+  match rev (dir_rev (rev p)) with [] => [47] | d => d end.
+(* filepath.Join(a, b) for non-empty a *)
+Definition fjoin (a b : bytes) : bytes := clean (a ++ [47] ++ b).
+Definition glob_pattern (absfile pat : bytes) : bytes :=
+  if is_abs pat then pat else fjoin (path_dir absfile) pat.
+(* filepath's hasMeta (non-Windows) *)
+Definition has_meta (p : bytes) : bool :=
+  existsb (fun c => (c =? 42) || (c =? 63) || (c =? 91) || (c =? 92)) p.
+(* [abspaths]: file id -> absolute path; [known]: the ids filepath.Glob can return (every file and
+   directory next to the Casketfile) *)
+Definition literal_matches (known : list (N * bytes)) (gp : bytes) : list N :=
+  map fst (filter (fun e => beq (snd e) gp) known).
+Definition resolve_literal (abspaths known : list (N * bytes)) (f : N) (pat : bytes) : option (list N) :=
+  match lookup_f abspaths f with
+  | Some af => Some (literal_matches known (glob_pattern af pat))
+  | None => None
+  end.
+Definition ids_eqb (a b : list N) : bool := list_beq N.eqb a b.
+(* the oracle follows the rule on every pattern without meta characters *)
+Definition globs_resolve_ok (abspaths known : list (N * bytes)) (globs : list ((N * bytes) * list N)) : bool :=
+  forallb (fun e => has_meta (snd (fst e)) ||
+                    match resolve_literal abspaths known (fst (fst e)) (snd (fst e)) with
+                    | Some ids => ids_eqb (snd e) ids
+                    | None => false
+                    end) globs.
+(* the oracle the rule itself gives for a list of (file, pattern) keys *)
+Definition literal_globs (abspaths known : list (N * bytes)) (keys : list (N * bytes)) : list ((N * bytes) * list N) :=
+  flat_map (fun k => match resolve_literal abspaths known (fst k) (snd k) with
+                     | Some ids => [(k, ids)] | None => [] end) keys.
+(* the harness's numbering: 0 = the main file, i+1 = the i-th name next to it (files and directories) *)
+Definition abs_of (base : bytes) (names : list (N * bytes)) : list (N * bytes) :=
+  (0, fjoin base (bs "Casketfile"%string)) :: map (fun e => (fst e, fjoin base (snd e))) names.
+Definition known_of (base : bytes) (names : list (N * bytes)) : list (N * bytes) :=
+  map (fun e => (fst e, fjoin base (snd e))) names.
+
 Definition retag (f : N) (ts : list token) : list token :=
   map (fun t => {| t_file := f; t_line := t_line t; t_text := t_text t; t_imp := t_imp t; t_envnl := t_envnl t |}) ts.
 Definition lex_files (files : list (N * option (list N))) : list (N * option (list token)) :=
@@ -603,7 +650,37 @@ Inductive case :=
    [expected] = the generating AST when the text was rendered from one *)
 | CParse (kind : N) (env : list (bytes * bytes)) (cap : N) (main : list N)
          (files : list (N * option (list N))) (globs : list ((N * bytes) * list N))
+         (o : obs) (expected : option (list eblock))
+(* the same with the place of every file: [base] = the directory of the Casketfile (absolute),
+   [names] = id -> path relative to it of every file and directory next to it *)
+| CParseAt (base : bytes) (names : list (N * bytes))
+         (kind : N) (env : list (bytes * bytes)) (cap : N) (main : list N)
+         (files : list (N * option (list N))) (globs : list ((N * bytes) * list N))
          (o : obs) (expected : option (list eblock)).
+
+Definition judge_parse (env : list (bytes * bytes)) (cap : N) (main : list N)
+           (files : list (N * option (list N))) (globs : list ((N * bytes) * list N))
+           (o : obs) (expected : option (list eblock)) : bool * bool :=
+  let m := parse_world env cap globs files main in
+  let agree :=
+    match m, o with
+    | POk bl, OBlocks ob => list_beq oblock_eqb (map canon bl) ob
+    | PErr e, OError _ cls => perr_class e =? cls
+    | PUnknown, _ => true
+    | PFuel, OTimeout => true
+    | _, _ => false
+    end in
+  let spec :=
+    match o with
+    | OPanic => false
+    | OTimeout => false
+    | OError nfl _ => nfl && match expected with Some _ => false | None => true end
+    | OBlocks ob => match expected with
+                    | Some ex => all2 (eblock_ok true) ob ex
+                    | None => true
+                    end
+    end in
+  (agree, spec).
 
 Definition judge (c : case) : N :=
   match c with
@@ -611,24 +688,10 @@ Definition judge (c : case) : N :=
       let m := map (fun t => (t_line t, t_text t)) (lex inp) in
       verdict (list_beq (fun a b => (fst a =? fst b)%Z && beq (snd a) (snd b)) m ot) true
   | CParse kind env cap main files globs o expected =>
-      let m := parse_world env cap globs files main in
-      let agree :=
-        match m, o with
-        | POk bl, OBlocks ob => list_beq oblock_eqb (map canon bl) ob
-        | PErr e, OError _ cls => perr_class e =? cls
-        | PUnknown, _ => true
-        | PFuel, OTimeout => true
-        | _, _ => false
-        end in
-      let spec :=
-        match o with
-        | OPanic => false
-        | OTimeout => false
-        | OError nfl _ => nfl && match expected with Some _ => false | None => true end
-        | OBlocks ob => match expected with
-                        | Some ex => all2 (eblock_ok true) ob ex
-                        | None => true
-                        end
-        end in
+      let '(agree, spec) := judge_parse env cap main files globs o expected in
       verdict agree spec
+  | CParseAt base names kind env cap main files globs o expected =>
+      let '(agree, spec) := judge_parse env cap main files globs o expected in
+      (* what filepath.Glob returned for every literal pattern is what the resolution rule says *)
+      verdict (agree && globs_resolve_ok (abs_of base names) (known_of base names) globs) spec
   end.
